@@ -29,8 +29,10 @@ def run(ctx):
         "Rayleigh-Schroedinger clause: proved as 'the diagonal entry is a root of char_poly H modulo x^(N+1) and the unique "
         "one with its constant term' (C04_rs_diag_block, C04_rs_unique); that the textbook RS recursion/closed formulas "
         "compute that root is tested by the oracle, not proved.",
-        "The list-based determinant/characteristic polynomial of Spectrum/CharPolyExec.v used by the tie is not proved "
-        "equal to MathComp's \\det/char_poly; the tie is a test of the theorem's premises and conclusion in that reading.",
+        "The list-based executable definitions of Spectrum/CharPolyExec.v used by the tie are proved correct against "
+        "MathComp (C04_tie_charpoly_correct, C04_tie_premises_sound) for the operations of any comRingType; the tie runs "
+        "the same Gallina terms with stdlib Q (Qred after each operation, Qeq_bool), and that this instance is such a "
+        "ring is not proved - the tie is a test of the theorem's premises and conclusion under that reading.",
         "Only Hermitian inputs (hermitian=True). Inputs with H_0 = 0 are rejected by the library (ValueError) and excluded. "
         "Exact arithmetic only: SymPy Gaussian rationals and exact-float (dyadic, energies in {0,1,2}) dense/sparse inputs; "
         "floating-point rounding on generic inputs is outside the statement.",
